@@ -123,6 +123,16 @@ def gen(rng, tier):
             c["f2"] = shuffled(rng, a)
             c["t2"] = shuffled(rng, b)
         cases.append(c)
+    # CSV tables: the real csv loader builds ListNode(rows) of ListNode(cells) of StringNodes WITHOUT the list
+    # options; at the level of edits this is the JSON diff of a list of lists of strings under default options
+    cells = ["1", "2", "a", "b", "ab", "abc", "", "x y", "10"]
+    for _ in range(n // 4):
+        w = rng.randint(1, 4)
+        a = [[rng.choice(cells) for _ in range(w if rng.random() < 0.8 else rng.randint(1, 4))] for _ in range(rng.randint(0, 4))]
+        b = mutate(rng, a) if rng.random() < 0.85 else [[rng.choice(cells) for _ in range(rng.randint(1, 3))] for _ in range(rng.randint(0, 3))]
+        b = [[str(c) if not isinstance(c, str) else c for c in (row if isinstance(row, list) else [row])] for row in (b if isinstance(b, list) else [[b]])]
+        b = [[c if isinstance(c, str) else "x" for c in row] for row in b]
+        cases.append({"f": a, "t": b, "opts": {}, "via": "csv"})
     # equal documents (possibly key-permuted)
     for _ in range(n // 6):
         a = gen_doc(rng)
@@ -258,38 +268,60 @@ def _num(x):
         return str(x)
 
 
-def one(f, t, opts):
+def _csv_tree(rows, o):
+    from graphtage import csv as gc, json as gj
+    import graphtage
+    out = []
+    for row in rows:
+        rowdata = [gj.build_tree(i, options=o) for i in row]
+        for col in rowdata:
+            if isinstance(col, graphtage.StringNode):
+                col.quoted = False
+        out.append(gc.CSVRow(rowdata))
+    return gc.CSVNode(out)
+
+
+def one(f, t, opts, via=None):
     import graphtage
     from graphtage import json as gj
     del _RECORD[:]
     o = graphtage.BuildOptions(**opts)
-    A = gj.build_tree(f, o)
-    B = gj.build_tree(t, o)
+    if via == "csv":
+        build = lambda x: _csv_tree(x, o)
+    else:
+        build = lambda x: gj.build_tree(x, o)
+    return _one(build, f, t)
+
+
+def _one(build, f, t):
+    A = build(f)
+    B = build(t)
     e = A.edits(B)
     _full(e)
     script = dump(e)
     oracle = list(_RECORD)
     root = _ub(e)
     # independent views on fresh trees
-    A2 = gj.build_tree(f, o)
-    B2 = gj.build_tree(t, o)
+    A2 = build(f)
+    B2 = build(t)
     edited = A2.diff(B2).edited_cost()
-    A3 = gj.build_tree(f, o)
-    B3 = gj.build_tree(t, o)
+    A3 = build(f)
+    B3 = build(t)
     flat = 0
     nflat = 0
     for ed in A3.get_all_edits(B3):
         _full(ed)
         flat += int(ed.bounds().upper_bound)
         nflat += 1
+    eq = bool(A._children == B._children) if type(A).__name__ == "CSVNode" else bool(A == B)   # CSVNode.__eq__ also equates "empty" tables
     return {"script": script, "oracle": oracle, "root": root, "edited_cost": int(edited), "flat_sum": flat,
-            "flat_n": nflat, "eq": bool(A == B), "sizes": [int(A.total_size), int(B.total_size)]}
+            "flat_n": nflat, "eq": eq, "sizes": [int(A.total_size), int(B.total_size)]}
 
 
 def impl(case):
-    obs = one(case["f"], case["t"], case.get("opts", {}))
+    obs = one(case["f"], case["t"], case.get("opts", {}), case.get("via"))
     if "f2" in case:
-        obs["perm"] = one(case["f2"], case["t2"], case.get("opts", {}))
+        obs["perm"] = one(case["f2"], case["t2"], case.get("opts", {}), case.get("via"))
     return obs
 
 
@@ -616,7 +648,8 @@ def classify(case, obs):
     if not o.get("allow_list_edits_when_same_length", True):
         tag += "-ll"
     comp = "+".join(sorted(k for k in kinds if k in ("ed", "fixed", "ms", "fk", "str", "kvp"))) or "leaf"
-    return f"{tag}|{comp}|oracle={min(len(obs.get('oracle', [])), 3)}"
+    via = "csv|" if case.get("via") == "csv" else ""
+    return f"{via}{tag}|{comp}|oracle={min(len(obs.get('oracle', [])), 3)}"
 
 
 def nontrivial(case, obs):
